@@ -35,7 +35,9 @@ func VH_C17_jsonstring() {
 	s := vnondetString(n)
 	vmMarshalCalls = 0
 	out := jsonString(s)
-	vobs("out", out)
+	if !vhNeedsEscape(s) {
+		vobs("out", out) // (the escaped form comes from encoding/json, which the engine does not run)
+	}
 	if !vnative() {
 		fast := vmMarshalCalls == 0
 		vassert("C17.K1.fast_path_only_for_plain_ascii", fast == !vhNeedsEscape(s))
